@@ -696,29 +696,44 @@ def c01_11(ck, prog, rid='C01.11'):
     if len(fn.params) < 3:
         raise AnalysisBroken('read_fixed_multi: parameters changed')
     vp, np_ = fn.params[1]['id'], fn.params[2]['id']
-    blocks = [rhs for b, i, ev in fn.events() for lhs, how, rhs in written_lvalues(ev)
+    blocks = [(rhs, ev['line']) for b, i, ev in fn.events() for lhs, how, rhs in written_lvalues(ev)
               if lhs.get('k') == 'un' and lhs['op'] == '*' and is_ref(lhs['e']) and lhs['e'].get('id') == vp
-              and rhs is not None and rhs.get('k') == 'call']
-    counts = [rhs for b, i, ev in fn.events() for lhs, how, rhs in written_lvalues(ev)
+              and rhs is not None and not is_int(rhs, 0) and how == '=']
+    counts = [(rhs, ev['line']) for b, i, ev in fn.events() for lhs, how, rhs in written_lvalues(ev)
               if lhs.get('k') == 'un' and lhs['op'] == '*' and is_ref(lhs['e']) and lhs['e'].get('id') == np_
-              and rhs is not None]
+              and rhs is not None and how == '=']
     if not blocks or not counts:
         raise AnalysisBroken('read_fixed_multi: block / count stores not found')
+    ldefs = {}
+    for b, i, ev in fn.events():
+        for lhs, how, rhs in written_lvalues(ev):
+            if is_ref(lhs) and lhs.get('kind') == 'local' and how in ('=', 'decl') and rhs is not None:
+                ldefs.setdefault(lhs['id'], []).append(rhs)
+
+    def from_current_position(e, depth=0):
+        """e is `<something> - reader->value_pos` (possibly through single-definition locals)"""
+        if is_ref(e) and len(ldefs.get(e.get('id'), [])) == 1 and depth < 4:
+            return from_current_position(ldefs[e['id']][0], depth + 1)
+        return e is not None and e.get('k') == 'bin' and e['op'] == '-' and is_member(e['r'], 'value_pos', 'DBusTypeReader')
     ok = True
-    for blk in blocks:
-        if blk.get('callee') != '_dbus_string_get_const_data_len' or len(blk['args']) < 3 \
-                or not is_member(blk['args'][1], 'value_pos', 'DBusTypeReader'):
-            r.violation('read_fixed_multi:block-from-current-position', fn.name, REC, blk['line'],
+    for blk, line in blocks:
+        starts = (blk.get('k') == 'call' and blk.get('callee') == '_dbus_string_get_const_data_len'
+                  and len(blk['args']) >= 3 and is_member(blk['args'][1], 'value_pos', 'DBusTypeReader')) or \
+                 (blk.get('k') == 'bin' and blk['op'] == '+' and (is_member(blk['r'], 'value_pos', 'DBusTypeReader')
+                                                               or is_member(blk['l'], 'value_pos', 'DBusTypeReader')))
+        if not starts:
+            r.violation('read_fixed_multi:block-from-current-position', fn.name, REC, line,
                         'the block handed out does not start at the reader\'s current position: %s' % estr(blk)[:120])
             ok = False
             continue
-        blen = blk['args'][2]
-        for cnt in counts:
-            good = cnt.get('k') == 'bin' and cnt['op'] == '/' and same_expr(cnt['l'], blen) \
-                and is_ref(cnt['r'])
+        blen = blk['args'][2] if blk.get('k') == 'call' else None
+        for cnt, cline in counts:
+            good = cnt.get('k') == 'bin' and cnt['op'] == '/' and is_ref(cnt['r']) and from_current_position(cnt['l']) \
+                and (blen is None or same_expr(cnt['l'], blen))
             if not good:
-                r.violation('read_fixed_multi:count-matches-block', fn.name, REC, blk['line'],
-                            'the block handed out is %s bytes long but the element count is %s' % (estr(blen), estr(cnt)))
+                r.violation('read_fixed_multi:count-matches-block', fn.name, REC, cline,
+                            'the block handed out runs from the current position to the end of the array, but the '
+                            'element count is %s' % estr(cnt))
                 ok = False
     if ok:
         r.ok('read_fixed_multi:block-from-current-position')
